@@ -812,6 +812,31 @@ func (c *Ctx) evalCall(env *specEnv, n *SNode) (specVal, error) {
 			return specVal{}, err
 		}
 		return specVal{Select(c.Arr(st, famChClosed, ArraySort(SInt, SBool)), x.t), tBool}, nil
+	case "lockinv":
+		// lockinv(x): the lock invariant declared for the struct type of x holds for x
+		x, err := argv(0)
+		if err != nil {
+			return specVal{}, err
+		}
+		stT := deref(x.typ)
+		li := c.LockInvs[c.Reg.TypeKey(stT)]
+		if li == nil {
+			return specVal{}, fmt.Errorf("no lock invariant declared for %s", stT)
+		}
+		ienv, _ := c.lockInvEnv(st, ownerInfo{Struct: stT, Obj: x.t, Field: li.Lock})
+		if ienv == nil {
+			return specVal{}, fmt.Errorf("lock invariant of %s not available", stT)
+		}
+		ienv.pol, ienv.polSet, ienv.assertMode = env.pol, true, env.assertMode
+		acc := True
+		for _, cl := range li.Clauses {
+			t, err := c.evalBool(ienv, cl.Expr)
+			if err != nil {
+				return specVal{}, err
+			}
+			acc = And(acc, t)
+		}
+		return specVal{acc, tBool}, nil
 	case "lastsent":
 		// lastsent(ch): the value most recently sent on ch on this path (arbitrary if none)
 		x, err := argv(0)
